@@ -15,6 +15,12 @@ package lucene
 // follows PostgreSQL's precedence, agree on probe rows hitting every region cut out by all
 // constants involved; (5) replacing any one value by another of the same kind leaves the
 // SQL text unchanged and changes only that parameter.
+//
+// Run:
+//   echo '{"Replace": {"/repo/zz_verif_c04_test.go": "/verif/harness/c04_test.go"}}' > /tmp/ov_c04.json
+//   cd /repo && VERIF_REPORT=/tmp/rep_c04.json go test -tags verif -overlay /tmp/ov_c04.json -vet=off -count=1 -run 'TestVerifStandin_C04$' .
+// (VERIF_TIER=thorough for the large tier; VERIF_SHOW=<category> logs up to 40 inputs of one category.)
+// The file is self-contained: the shared machinery below is a private copy with the vc04 prefix.
 
 import (
 	"encoding/json"
@@ -1886,15 +1892,63 @@ func vc04BigInt(v vc04Val) bool {
 	return new(big.Rat).Abs(v.rat).Cmp(lim) > 0
 }
 
+// vc04Live: the features whose canonical single-feature witness currently fails the check.
+// A feature whose witness passes (e.g. because the defect has been fixed) is not used to
+// name a category any more.  nil = every feature counts.
+var vc04Live map[string]bool
+
+// vc04Witnesses: for every feature the smallest leaf that has this feature and no other.
+func vc04Witnesses() map[string]*vc04Node {
+	b, q, e := vc04StyleBare, vc04StyleQuoted, vc04StyleEscaped
+	sb, sd := vc04Str("b", b), vc04Str("d", b)
+	return map[string]*vc04Node{
+		"nan-inf-word-read-as-number":            vc04Leaf(vc04OpEq, "s", false, vc04Str("NaN", b)),
+		"phrase-escapes-unprocessed":             vc04Leaf(vc04OpEq, "s", false, vc04Str(`b\c`, q)),
+		"escaped-wildcard-char-read-as-wildcard": vc04Leaf(vc04OpEq, "s", false, vc04Str("b*", e)),
+		"escaped-backslash-dropped":              vc04Leaf(vc04OpEq, "s", false, vc04Str(`b\c`, e)),
+		"pattern-escaped-wildcard-char":          vc04Leaf(vc04OpLike, "s", false, vc04Pat(`b\**`)),
+		"pattern-literal-underscore-percent":     vc04Leaf(vc04OpLike, "s", false, vc04Pat("b_*")),
+		"quoted-star-bounds-read-as-open":        vc04Range("s", false, vc04Str("*", q), vc04Str("*", q), true, true),
+		"string-range-bound-with-comma":          vc04Range("s", false, vc04Str("b,c", q), sd, true, true),
+		"range-both-ends-open":                   vc04Range("n", true, vc04Open(), vc04Open(), true, true),
+		"string-range-open-end-as-between":       vc04Range("s", false, sb, vc04Open(), true, true),
+		"string-range-exclusive-as-between":      vc04Range("s", false, sb, sd, false, false),
+		"decimal-range-open-end-as-between":      vc04Range("n", true, vc04Open(), vc04Dec("1.5"), true, true),
+		"range-mixed-brackets":                   vc04Range("n", true, vc04Int("1"), vc04Int("5"), true, false),
+		"decimal-range-bound-rounded":            vc04Range("n", true, vc04Dec("0.001"), vc04Dec("0.002"), true, true),
+		"int-range-bound-through-float64":        vc04Range("n", true, vc04Dec("1.5"), vc04Int("9223372036854775807"), true, true),
+		"short-regexp-similar-to-vs-tilde":       vc04Leaf(vc04OpRegex, "s", false, vc04Re("b")),
+	}
+}
+
+// vc04FindLive runs the check on every witness.
+func vc04FindLive(fails func(*vc04Node) bool) map[string]bool {
+	live := map[string]bool{}
+	for f, w := range vc04Witnesses() {
+		if fails(w) {
+			live[f] = true
+		}
+	}
+	return live
+}
+
 func vc04LeafFeatures(l *vc04Node) []string {
 	var fs []string
 	add := func(f string) {
+		if vc04Live != nil && !vc04Live[f] {
+			return
+		}
 		for _, x := range fs {
 			if x == f {
 				return
 			}
 		}
 		fs = append(fs, f)
+	}
+	for _, v := range l.vals {
+		if v.kind == vc04KRe && len(v.text) < 2 {
+			add("short-regexp-similar-to-vs-tilde")
+		}
 	}
 	for _, v := range l.vals {
 		if v.kind == vc04KStr {
@@ -2277,34 +2331,7 @@ func vc04ShowResult(v vc04Sv, err error) string {
 	return "a " + vc04TypeName(v) + " value"
 }
 
-// root causes that can make the two renderers (or the parameter list) disagree
-var vc04Relevant = map[string]bool{
-	"nan-inf-word-read-as-number":            true,
-	"phrase-escapes-unprocessed":             true,
-	"escaped-wildcard-char-read-as-wildcard": true,
-	"escaped-backslash-dropped":              true,
-	"pattern-escaped-wildcard-char":          true,
-	"quoted-star-bounds-read-as-open":        true,
-	"decimal-range-open-end-as-between":      true,
-	"decimal-range-bound-rounded":            true,
-	"int-range-bound-through-float64":        true,
-	"short-regexp-similar-to-vs-tilde":       true,
-}
-
-func vc04Features(l *vc04Node) []string {
-	var fs []string
-	for _, v := range l.vals {
-		if v.kind == vc04KRe && len(v.text) < 2 {
-			fs = append(fs, "short-regexp-similar-to-vs-tilde")
-		}
-	}
-	for _, f := range vc04LeafFeatures(l) {
-		if vc04Relevant[f] {
-			fs = append(fs, f)
-		}
-	}
-	return fs
-}
+func vc04Features(l *vc04Node) []string { return vc04LeafFeatures(l) }
 
 func vc04Category(root *vc04Node, out vc04Outcome) (cat string, nfeat int) {
 	if out.kind == "panic" {
@@ -2375,14 +2402,15 @@ func TestVerifStandin_C04(t *testing.T) {
 		}
 	}
 	nLeafPart := len(items)
-	sl := vc04StructLeaves(thorough)
+	sl := vc04StructLeaves(false)
 	if !thorough {
 		sl = []*vc04Node{sl[0], sl[2], sl[4], sl[5], sl[6], sl[7]}
 	}
 	sl = append(sl, vc04Leaf(vc04OpRegex, "t", false, vc04Re("b.d")), vc04Leaf(vc04OpLike, "s", false, vc04Pat("*")))
 	structs := vc04Structures(sl, []*vc04Node{sl[0], sl[2], sl[4]})
+	maxSubs = 3 // every value position of every structure still gets 2-3 same-kind substitutions
 	if !thorough {
-		maxSubs = 2 // every value position of every structure still gets two same-kind substitutions
+		maxSubs = 2
 	}
 	for _, s := range structs {
 		add(s, false)
@@ -2404,6 +2432,12 @@ func TestVerifStandin_C04(t *testing.T) {
 		add(vc04RandTree(rng, d), rng.Intn(2) == 0)
 	}
 	nRandPart := len(items) - nLeafPart - nStructPart
+
+	// which known root causes currently make C04 fail? (only used to name categories)
+	vc04Live = nil
+	vc04Live = vc04FindLive(func(w *vc04Node) bool {
+		return vc04CheckOne(w, vc04PrintLeaf(w), false, maxRows, thorough, 8).kind != ""
+	})
 
 	var mu sync.Mutex
 	var fails []vc04Failure
@@ -2441,7 +2475,7 @@ func TestVerifStandin_C04(t *testing.T) {
 		"over %d numbers and %d string spellings, each alone and under NOT, -, +, and on both sides of AND / OR; "+
 		"(2) %d texts: every tree of depth <= 2 over %d representative leaves with NOT, +, -, AND, OR and juxtaposed +/- clauses; "+
 		"(3) %d seeded random trees of depth <= %d with random values. "+
-		"For every value position 3-8 (structures in the quick tier: 2) substitutions by another value of the same kind (ints incl. MaxInt64, decimals, strings with comma / apostrophe / \"*\", patterns * and ?, short and long regexps). "+
+		"For every value position 3-8 (structures: 2 in the quick tier, 3 in the thorough tier) substitutions by another value of the same kind (ints incl. MaxInt64, decimals, strings with comma / apostrophe / \"*\", patterns * and ?, short and long regexps). "+
 		"Equivalence decided on the product of per-field probes hitting every region cut out by the constants of the query, of both SQL texts and of the parameters (at most %d rows per query; %d row evaluations in total).",
 		nLeafPart, map[bool]int{false: 3, true: 4}[thorough], reBodies, len(vc04NumVals(thorough)), len(vc04StrVals(thorough)),
 		nStructPart, len(sl), nRandPart, randDepth, maxRows, rowEvals)
